@@ -134,6 +134,30 @@ CLAIMS = {
         "text": "Decides: noq connect_with requires before_connect Accept, id != self, non-empty ALPN (closed endpoint refuses first); HandshakeCompletedData is assembled only in conn_from_noq_conn whose future yields Ok only on after_handshake Accept and closes+errs on Reject; hook lists return Accept only after exhaustion and Reject immediately. What hooks decide is not decided.",
         "technique": "success-edge dominance on enum-valued outcomes through awaits, constructor-site inventory, iterator-exhaustion edges",
     },
+    "C19": {
+        "text": "Decides: the QUIC-facing sender's returns are all Poll::Ready(Ok(())) except the propagated socket-closed error (built only when the socket is closed); unknown synthetic addresses are dropped before any transport; Mixed addresses go to the per-remote actor and never to a transport; each mapped kind resolves through its own map into its own FourTuple kind; TransportsSender::poll_send only reaches senders of the FourTuple's own kind and blackholes otherwise. IP routing predicates (prefix/default/scope) are not decided.",
+        "technique": "return-shape classification, match-arm table extraction, reachability from None edges",
+    },
+    "C21": {
+        "text": "Decides the hand-off protocol shape: run() has no in-loop return, closes the inbox before draining, returns the drained buffer with its own id, handles initial messages first; remove_or_restart_actor removes on empty leftovers else restarts *the same id* with exactly the leftovers and stores the new sender; send_to_actor hands the joined task's own id on, appends the failed message after the leftovers; only those two functions write senders / start actors. Interleavings with try_send from other threads are not explored.",
+        "technique": "must-precede / must-pass-through on coroutine MIR, copy-chain provenance of ids and message vectors, who-writes",
+    },
+    "C22": {
+        "text": "Decides linearity (answered-or-queued on every path, every queued sender drained and replied) and reply correctness shape (immediate Ok iff paths non-empty and nothing else decides; Err only built under paths.is_empty(); emit only from three callers, insert_multiple only on the empty->non-empty transition; finished only on terminal lookup arms; paths only removed by pruning). `never loses all paths` depends on pruning arithmetic (C23) and is not decided.",
+        "technique": "linear-resource rule (by-value consumers on all paths), success-edge dominance, who-calls/who-writes",
+    },
+    "C24": {
+        "text": "Decides one clause: every path passed to selection.set is the recorded candidate, candidates are recorded only for elements of ctx.paths() with Some stats, no candidate => untouched PathSelection::none(); select_path replaces selected_path only with the selector's Some(addr) (elsewhere only cleared). Tiering and thresholds are values and not decided.",
+        "technique": "success-edge dominance + derives-from on the candidate slot, who-writes",
+    },
+    "C27": {
+        "text": "Decides: Probe kind <-> latency map table agreement across update_relay/merge/iter/is_empty/get; the only store into an existing latency is under `new < old`; write-once discipline of global_v4/v6 and mapping_varies (Some(true) only on a differing later address, Some(false) only on agreement with nothing recorded), wrong-family early return, per-family field sets. Commutativity over histories as values is not decided.",
+        "technique": "match-arm table extraction, guarded-write idiom check (success-edge dominance on comparison operands), field-write inventory per arm",
+    },
+    "C29": {
+        "text": "Terminal-item discipline of AddressLookupStream::poll_next on all paths (anchored on its `closed`/`did_emit`/`errors` state): closed checked first, every terminal item after closed=true, NoResults requires !did_emit and carries the buffered errors, did_emit set exactly on Ok items, inner errors buffered and yielded; resolve() is empty iff no services. A refactor of the state representation needs the instance table updated (fails closed). Merge order of services is external.",
+        "technique": "dominance of flag writes over terminal yields, nested success-edge tests on the polled item",
+    },
 }
 
 _PENDING = "rules for this property are not implemented yet in this revision (see DESIGN.md §4 for the planned structural clauses)"
